@@ -1,6 +1,8 @@
 import Drv.Util
 import Drv.C06
 import Drv.C15
+import Drv.C16
+import Drv.C20
 open DrvUtil
 
 def main (args : List String) : IO UInt32 := do
@@ -8,6 +10,14 @@ def main (args : List String) : IO UInt32 := do
   let o ← IO.getStdout
   match args with
   | ["c06"] => mapLines i o drvC06; return 0
+  | ["c20a4"] => mapLines i o drvC20a4; return 0
+  | ["c20exp4"] => mapLines i o drvC20exp4; return 0
+  | ["c20exp5"] => mapLines i o drvC20exp5; return 0
+  | ["c20path4"] => foldLines i o none drvC20path4; return 0
+  | ["c20stream4"] => foldLines i o none drvC20stream4; return 0
+  | ["c20pipe"] => foldLines i o none drvC20pipe; return 0
+  | ["c20a5"] => mapLines i o drvC20a5; return 0
+  | ["c16"] => mapLines i o drvC16; return 0
   | ["c15pos"] => mapLines i o drvC15pos; return 0
   | ["c15enc"] => mapLines i o drvC15enc; return 0
   | ["c15dec"] => mapLines i o drvC15dec; return 0
